@@ -74,7 +74,26 @@ services:
     extends: web
     environment: [API=1]
 `
+	refineBase := `
+services:
+  s:
+    image: s
+    depends_on: [t, u]
+    links: [t]
+    network_mode: "service:u"
+  t: {image: t}
+  u: {image: u}
+`
+	refineOver := `
+services:
+  s:
+    depends_on:
+      t: {condition: service_healthy, restart: true}
+      u: {condition: service_completed_successfully, required: false}
+`
 	return map[string]*Scn{
+		"depends-refine":   {Files: map[string]string{"a.yaml": refineBase, "b.yaml": refineOver}, Main: []string{"a.yaml", "b.yaml"}},
+		"depends-short":    {Files: map[string]string{"a.yaml": refineBase}, Main: []string{"a.yaml"}},
 		"extends-samename": {Files: map[string]string{"compose.yaml": sameMain, "common.yaml": sameCommon}, Main: []string{"compose.yaml"}},
 		"spellings": {Files: map[string]string{"a.yaml": a, "b.yaml": b}, Main: []string{"a.yaml", "b.yaml"}},
 	}
